@@ -308,7 +308,7 @@ pub fn act() -> BoxedStrategy<Act> {
         2 => dest().prop_map(|dest| Act::Parse0 { dest }),
         4 => prop_oneof![1u16..=9, 1u16..=400, Just(u16::MAX)].prop_map(Act::ConsumeStream),
         3 => Just(Act::Compress),
-        1 => prop_oneof![1u16..=9, Just(u16::MAX)].prop_map(Act::ConsumeOutput),
+        1 => prop_oneof![3 => 1u16..=9, 2 => Just(u16::MAX), 1 => Just(15u16), 1 => Just(16u16), 1 => 10u16..=200].prop_map(Act::ConsumeOutput),
         2 => Just(Act::Advance),
         1 => Just(Act::Reselect),
     ]
